@@ -79,6 +79,10 @@ CLAIMS = {
    technique="who-may-write + path pairing of 'append record' with 'length += record length' (SSA path rule), reset-completeness by field-write sets and constructor/reset value normal forms, delegation/loop shape rules for the add paths, imported length-accounting and assembly rules",
    text="Decides the bookkeeping invariants structurally: set.length only changes together with appending the same record (on every path, incl. error exits), starts/resets at SetHeaderLen; every field a builder method mutates is re-initialised by ResetSet to the constructor's value; AddRecord delegates with 0 extra elements; both data paths establish the same record summary (id, fieldCount=len, sum of GetLength, order) and both template paths use the single addInfoElement primitive with PrepareRecord once; reported record lengths equal what is serialized. Byte identity for concrete element lists is implied by the shared primitives, not computed.",
    note="Evaluated for encoding builders (isDecoding=false).", ref="DESIGN.md §5 C16"),
+ "C19": dict(
+   technique="range-loop element identity and synchronous-call shape in the publisher, index identity out[i]<-records[i] in both convertors, template gate, frame construction by SSA value identity (fresh 4-byte big-endian prefix + marshal result), producer/consumer delimiter table agreement, every-path-reaches-send rule, name->type->accessor tables for every case \"name\"",
+   text="Decides the structural conditions of one framed Kafka message per data record in order: the publisher sends the loop's own element synchronously with the delimiter flag true; both convertors return nil for template sets and fill out[i] from records[i] with the message's four header fields; the payload is a fresh 4-byte big-endian length prefix followed by exactly the marshal result, on the configured topic, sent once; the consumer strips the same 4 bytes and decodes with reset semantics; every named case uses an accessor its registered type declares. One genuine violation is a recorded known finding (marshal error drops the record). Protobuf content and broker delivery are not decided.",
+   note="Trusted: proto.Marshal/Unmarshal, sarama.", ref="DESIGN.md §5 C19"),
 }
 NOT_YET = "rules designed (DESIGN.md §5) but not built yet in this round; no claim is made until the check exists"
 props=[json.loads(l) for l in open('/verif/properties.jsonl')]
